@@ -13,7 +13,7 @@ def pOptNat : P (Option Nat) := do
 def pKind : P Nat := do
   let t ← tok
   if t = "a" then pure 0 else if t = "b" then pure 1 else if t = "v" then pure 2
-  else if t = "s" then pure 3 else if t = "t" then pure 4 else if t = "m" then pure 5 else failure
+  else if t = "s" then pure 3 else if t = "t" then pure 4 else if t = "m" then pure 5 else if t = "g" then pure 6 else failure
 
 def pEv : P Ev := do
   let t ← tok
@@ -45,6 +45,9 @@ def pEv : P Ev := do
   else if t = "Z" then do let s ← nat; let l ← nat; let tm ← nat; pure (.crash s l tm)
   else if t = "I" then do let c ← nat; pure (.invoke c)
   else if t = "Y" then do let s ← nat; let l ← nat; pure (.shutdownHung s l)
+  else if t = "LC" then do
+    let s ← nat; let l ← nat; let v ← nat; let il ← nat
+    pure (.leaderCh s l (if v = 2 then none else some (v ≠ 0)) (il ≠ 0))
   else if t = "K" then do
     let cid ← nat; let s ← nat; let l ← nat; let k ← pKind; let p ← nat; let t0 ← nat; let t1 ← nat
     let code ← nat; let idx ← nat; let r ← pOptNat
@@ -75,17 +78,17 @@ def cmonFor : String → List CMon
   | "C05" => [commitLeLast, currentTermRule, ackedSurvive, streamsAgree]
   | "C07" => [configGated]
   | "C14" => [isolatedTermConstant]
-  | "C08" => [clientOutcomes, barrierOK, ackedSurvive, streamsAgree]
+  | "C08" => [failedRestoreResidue, clientOutcomes, barrierOK, ackedSurvive, streamsAgree]
   | "C09" => [verifyFresh]
   | "C13" => [leaseStepDown, calmStable]
-  | "C20" => [restoreOK, finalStatesEqual, allResolved]
+  | "C20" => [failedRestoreResidue, restoreOK, finalStatesEqual, allResolved]
   | "C10" => [restartable, streamsInOrder]
   | "C11" => [restartable, ackedSurvive]
   | "C12" => [converged]
-  | "C17" => [allResolved]
-  | "C18" => [notifyAlternates]
+  | "C17" => [allResolved, shutdownCompletes]
+  | "C18" => [notifyAlternates, leaderChLatest]
   | _ => [oneSenderPerTerm, oneGrantPerTerm, streamsAgree, streamsInOrder, clientOutcomes, barrierOK, ackedSurvive,
-          logsAgree, termsMonotone, retainedAgree, commitLeLast, converged, allResolved, notifyAlternates, verifyFresh, configGated, currentTermRule, isolatedTermConstant, restartable]
+          logsAgree, termsMonotone, retainedAgree, commitLeLast, converged, allResolved, notifyAlternates, verifyFresh, configGated, currentTermRule, isolatedTermConstant, restartable, shutdownCompletes, leaderChLatest]
 
 def cJudgeWith (ms : List CMon) (_caseLine implLine : String) : String :=
   match parseHist implLine with
